@@ -49,6 +49,8 @@ struct Shared {
     fail_left: AtomicUsize,
     /// number of readiness checks made so far (all instances)
     ready_polls: AtomicUsize,
+    /// op D: the next readiness check panics (the worker dies outside any service call, with its connections in progress)
+    die_on_ready: std::sync::atomic::AtomicBool,
     /// instantiations of each builder call's service factory so far, and (cid, ordinal of the instance that served it)
     insts: Mutex<[usize; 16]>,
     served_gen: Mutex<Vec<(u64, usize, usize)>>,
@@ -67,6 +69,18 @@ where
     type Future = S::Future;
     fn poll_ready(&self, cx: &mut std::task::Context<'_>) -> std::task::Poll<Result<(), Self::Error>> {
         self.1.ready_polls.fetch_add(1, Ordering::SeqCst);
+        if self.1.die_on_ready.swap(false, Ordering::SeqCst) {
+            self.1.panicked.lock().unwrap().push(0);
+            panic!("readiness check panics");
+        }
+        {
+            // keep the waker of the latest readiness checks: op D wakes them to make the worker ask again
+            let mut ws = self.1.ready_wakers.lock().unwrap();
+            if ws.len() > 64 {
+                ws.drain(..32);
+            }
+            ws.push(cx.waker().clone());
+        }
         if self.1.blocked.load(Ordering::SeqCst) {
             self.1.ready_wakers.lock().unwrap().push(cx.waker().clone());
             return std::task::Poll::Pending;
@@ -679,6 +693,19 @@ fn run_once(line: &str, dir: &PathBuf, quiet: Duration) -> String {
                     }
                 }
             }
+            b'D' => {
+                // the (single) worker dies in a readiness check, as it is: idle, partially loaded or saturated
+                sh.die_on_ready.store(true, Ordering::SeqCst);
+                let ws: Vec<_> = sh.ready_wakers.lock().unwrap().drain(..).collect();
+                for w in ws {
+                    w.wake();
+                }
+                if !wait_until_for(if starved { Duration::from_secs(1) } else { BOUND }, || !sh.die_on_ready.load(Ordering::SeqCst)) {
+                    note.push_str("!worker-never-checked-readiness-again");
+                    sh.die_on_ready.store(false, Ordering::SeqCst);
+                    starved = true;
+                }
+            }
             b'B' => sh.blocked.store(true, Ordering::SeqCst),
             b'b' => {
                 sh.blocked.store(false, Ordering::SeqCst);
@@ -758,7 +785,7 @@ fn run_once(line: &str, dir: &PathBuf, quiet: Duration) -> String {
         // service calls of a worker that has died end when its thread has torn its runtime down, which can take longer than the
         // quiet period on a loaded machine: where a worker died in this step (K / J), give the in-progress vector time to reach
         // the expected one (the properties speak about settled states; a vector that never gets there is still reported)
-        if matches!(op.as_bytes()[0], b'K' | b'J') {
+        if matches!(op.as_bytes()[0], b'K' | b'J' | b'D') {
             if let Some(want_act) = exp_act.get(k) {
                 let cur = || sh.active[..w.min(MAXW)].iter().map(|a| a.load(Ordering::SeqCst).to_string()).collect::<Vec<_>>().join(".");
                 let _ = wait_until_for(if starved { Duration::from_secs(1) } else { Duration::from_secs(3) }, || &cur() == want_act);
